@@ -7,3 +7,11 @@ pub assume_specification<T> [bool::then_some] (b: bool, t: T) -> (r: Option<T>)
 pub assume_specification<T, U, F: FnOnce(T) -> U> [Option::<T>::map_or] (o: Option<T>, default: U, f: F) -> (r: U)
     requires o is Some ==> call_requires(f, (o->0,)),
     ensures o is None ==> r == default, o is Some ==> call_ensures(f, (o->0,), r);
+// Option::is_none_or(f): true for None, f(x) for Some(x) (std documentation)
+pub assume_specification<T, F: FnOnce(T) -> bool> [Option::<T>::is_none_or] (o: Option<T>, f: F) -> (r: bool)
+    requires o is Some ==> call_requires(f, (o->0,)),
+    ensures o is None ==> r, o is Some ==> call_ensures(f, (o->0,), r);
+// Option::is_some_and(f): false for None, f(x) for Some(x)
+pub assume_specification<T, F: FnOnce(T) -> bool> [Option::<T>::is_some_and] (o: Option<T>, f: F) -> (r: bool)
+    requires o is Some ==> call_requires(f, (o->0,)),
+    ensures o is None ==> !r, o is Some ==> call_ensures(f, (o->0,), r);
